@@ -6,13 +6,18 @@ CONSTANTS
   LayerCfgs <- MLayerCfgs
   DiagCfgs <- MDiagCfgs
   Layers <- MLayers
+  AliasDoms <- MAliasDoms
+  QueryCfgs <- MQueryCfgs
   ObjIds = {"o1", "o2"}
   MaxArchs = 2
   MaxHist = 4
   EMIT = FALSE
   EmitLen = 0
+VIEW View
 INVARIANT Functional
 INVARIANT Reapply
+INVARIANT RulesReportQueries
+INVARIANT VizTotal
 PROPERTY Pure
 PROPERTY ObjectStable
 CHECK_DEADLOCK FALSE
